@@ -103,6 +103,9 @@ def run(tier, work):
 
     traces, first = [], {}
     for job, res in zip(jobs, results):
+        if res.get("skipped"):
+            v.count("skipped_after_repeated_worker_timeouts")
+            continue
         v.count("runs")
         if job.get("trace") and not res.get("died"):
             traces.append(R.trace_of("#%d|%s|%s" % (job["idx"], job["tag"], " ".join(job["args"])), res, 0, {"s", "x", "a"}))
